@@ -335,3 +335,540 @@ Proof.
   assert (H6 : startswith [34] (t0 ++ ws ++ quoted c) = false) by reflexivity. rewrite H6.
   assert (H7 : startswith k_msgstr_br (t0 ++ ws ++ quoted c) = true) by reflexivity. rewrite H7. reflexivity.
 Qed.
+
+(* ================================================================ prefixed lines: #~ ... and #| ... *)
+Definition rest_tokens (x : str) : list str :=      (* what split(None, 2) leaves after the first token, for the text x *)
+  fst (word x) :: match lstrip (snd (word x)) with [] => [] | l => [l] end.
+
+Lemma split2_prefixed w sep x : no_space w -> w <> [] -> all_space sep -> sep <> [] -> starts_nonspace x ->
+  split2 (w ++ sep ++ x) = w :: rest_tokens x.
+Proof.
+  intros Hw Hne Hs Hsne Hx. destruct (split2_two w sep x Hw Hne Hs Hsne Hx) as (t1 & r & E & -> & Hr & Hiff).
+  rewrite E. unfold rest_tokens. f_equal. f_equal. destruct Hr as [-> | ->].
+  - destruct Hiff as [_ H]. now rewrite (H eq_refl).
+  - destruct (lstrip (snd (word x))) eqn:El; [|reflexivity]. destruct Hiff as [H _]. discriminate (H eq_refl).
+Qed.
+
+Lemma hash_tok_nospace c : In c [126; 124] -> no_space [35; c] /\ ~ is_space 35.
+Proof. intros Hc. assert (H35 : ~ is_space 35) by apply not_space_chars. split; [|exact H35].
+  constructor; [exact H35|]. constructor; [|constructor]. unfold is_space. cbn [In] in *. intros H.
+  destruct Hc as [<-|[<-|[]]]; repeat (destruct H as [H|H]; [discriminate H|]); destruct H. Qed.
+
+Lemma lex_obs_line osep inner : sep_str_ok osep -> trimmed inner -> starts_nonspace inner ->
+  lex_line false ([35; 126] ++ osep ++ inner) =
+  LLine true (startswith [HASH] (fst (word inner))) (lex_core inner (rest_tokens inner)).
+Proof.
+  intros [Hne Hsp] Htr Hst.
+  destruct (hash_tok_nospace 126 ltac:(cbn; tauto)) as [Hns H35].
+  assert (Hinner : inner <> []) by (destruct inner; [contradiction|discriminate]).
+  assert (Hbody : trimmed ([35; 126] ++ osep ++ inner)).
+  { replace ([35; 126] ++ osep ++ inner) with (([35; 126] ++ osep) ++ inner) by now rewrite <- app_assoc.
+    destruct (trimmed_parts _ Htr Hinner) as [_ Hl]. apply trimmed_app_last; try assumption; discriminate. }
+  rewrite lex_line_body; [|exact Hbody|discriminate].
+  rewrite (split2_prefixed [35; 126] osep inner Hns ltac:(discriminate) Hsp Hne Hst).
+  unfold lex_tokens, rest_tokens. change (list_eqb [35; 126] [HASH; 126; 124]) with false.
+  change (list_eqb [35; 126] [HASH; 126]) with true. cbn [andb negb]. cbv iota.
+  assert (Es : strip (drop 3 ([35; 126] ++ osep ++ inner)) = inner).
+  { destruct osep as [|o osep']; [congruence|]. inversion Hsp; subst. cbn [app drop skipn].
+    pose proof (strip_padded osep' inner [] ltac:(assumption) (Forall_nil _) Htr) as E. now rewrite app_nil_r in E. }
+  rewrite Es. reflexivity.
+Qed.
+
+Lemma lex_core_kw_gen dec y kw sep c (rest : list PoParser.str) : kw_of y = Some kw -> all_space sep -> sep <> [] -> chunk_ok dec c -> rest <> [] ->
+  lex_core (kw ++ sep ++ quoted c) (kw :: rest) = AProc y (quoted c).
+Proof.
+  intros Hk Hs Hne Hc Hr. destruct (kw_facts y kw Hk) as (Hns & Hkne & Hsym & _).
+  destruct (quoted_trimmed c) as (_ & _ & Hst & _). unfold lex_core. rewrite Hsym.
+  destruct rest as [|t1 r]; [congruence|].
+  assert (El : lstrip (drop (length kw) (kw ++ sep ++ quoted c)) = quoted c).
+  { unfold drop. rewrite skipn_app, skipn_all, Nat.sub_diag. cbn [skipn app]. rewrite lstrip_spaces by assumption. now apply lstrip_nonspace. }
+  rewrite El, (quote_test dec c Hc). reflexivity.
+Qed.
+
+Lemma kw_line_facts y kw sep c : kw_of y = Some kw -> all_space sep -> sep <> [] ->
+  trimmed (kw ++ sep ++ quoted c) /\ starts_nonspace (kw ++ sep ++ quoted c) /\
+  word (kw ++ sep ++ quoted c) = (kw, sep ++ quoted c) /\ lstrip (sep ++ quoted c) = quoted c.
+Proof.
+  intros Hk Hs Hne. destruct (kw_facts y kw Hk) as (Hns & Hkne & _ & Htr & _).
+  destruct (quoted_trimmed c) as (_ & _ & Hst & _).
+  split; [|split; [|split]].
+  - destruct kw as [|k0 kw']; [congruence|]. destruct Htr as [H1 _]. split; [exact H1|]. unfold quoted.
+    replace ((k0 :: kw') ++ sep ++ 34 :: chunk_text c ++ [34]) with (((k0 :: kw') ++ sep ++ 34 :: chunk_text c) ++ [34])
+      by (rewrite <- !app_assoc; reflexivity).
+    rewrite last_last. apply not_space_chars.
+  - destruct kw as [|k0 kw']; [congruence|]. destruct Htr as [H1 _]. exact H1.
+  - apply word_app; [assumption|]. now apply all_space_ends.
+  - rewrite lstrip_spaces by assumption. now apply lstrip_nonspace.
+Qed.
+
+Lemma rest_tokens_eq x w t : word x = (w, t) -> lstrip t <> [] -> rest_tokens x = [w; lstrip t].
+Proof. intros Hw Hl. unfold rest_tokens. rewrite Hw. cbn [fst snd]. destruct (lstrip t); [congruence|reflexivity]. Qed.
+
+Lemma quoted_match {A} c (a : A) (f : str -> A) : match quoted c with [] => a | n :: l => f (n :: l) end = f (quoted c).
+Proof. reflexivity. Qed.
+
+Lemma lex_obs_kw dec y kw osep sep c : kw_of y = Some kw -> sep_str_ok osep -> all_space sep -> sep <> [] -> chunk_ok dec c ->
+  lex_line false ([35; 126] ++ osep ++ kw ++ sep ++ quoted c) = kw_tok true false y c.
+Proof.
+  intros Hk Ho Hs Hne Hc. destruct (kw_line_facts y kw sep c Hk Hs Hne) as (Htr & Hst & Hw & Hl).
+  rewrite (lex_obs_line osep _ Ho Htr Hst). rewrite (rest_tokens_eq _ _ _ Hw) by (rewrite Hl; discriminate).
+  rewrite Hw, Hl. cbn [fst].
+  assert (Hh : startswith [HASH] kw = false) by (destruct y; cbn in Hk; inversion Hk; reflexivity).
+  rewrite Hh. unfold kw_tok. f_equal. apply (lex_core_kw_gen dec y kw sep c); try assumption. discriminate.
+Qed.
+
+Lemma lex_obs_cont dec osep c : sep_str_ok osep -> chunk_ok dec c ->
+  lex_line false ([35; 126] ++ osep ++ quoted c) = cont_tok true false c.
+Proof.
+  intros Ho Hc. destruct (quoted_trimmed c) as (Htr & _ & Hst & _).
+  rewrite (lex_obs_line osep _ Ho Htr Hst). unfold rest_tokens. destruct (word_quoted_head c) as [w Hw]. rewrite Hw.
+  rewrite (lex_core_cont dec c w _ Hc). reflexivity.
+Qed.
+
+Lemma mx_line_facts i ws c : i < 10 -> all_space ws -> ws <> [] ->
+  let t0 := k_msgstr_br ++ [48 + i; 93] in
+  mx_cur i ws c = t0 ++ ws ++ quoted c /\ trimmed (t0 ++ ws ++ quoted c) /\ starts_nonspace (t0 ++ ws ++ quoted c) /\
+  word (t0 ++ ws ++ quoted c) = (t0, ws ++ quoted c) /\
+  forall rest, lex_core (t0 ++ ws ++ quoted c) (t0 :: rest) = AProc Ymx (t0 ++ ws ++ quoted c).
+Proof.
+  intros Hi Hws Hne t0.
+  assert (Hd : idx_digits i = [48 + i]) by (unfold idx_digits; replace (i <? 10) with true by lia; reflexivity).
+  assert (Hns : no_space t0).
+  { unfold t0, k_msgstr_br, k_msgstr. cbn [app]. repeat constructor;
+      unfold is_space; cbn [In]; intros H; repeat (destruct H as [H|H]; [try discriminate H; lia|]); destruct H. }
+  split; [unfold mx_cur, t0; rewrite Hd, <- !app_assoc; reflexivity|].
+  split; [|split; [|split]].
+  - unfold quoted. replace (t0 ++ ws ++ 34 :: chunk_text c ++ [34]) with ((t0 ++ ws ++ 34 :: chunk_text c) ++ [34])
+      by (rewrite <- !app_assoc; reflexivity).
+    split; [apply not_space_chars|]. rewrite last_last. apply not_space_chars.
+  - apply not_space_chars.
+  - apply word_app; [assumption|]. now apply all_space_ends.
+  - intros rest. unfold lex_core.
+    assert (H4 : keyword_sym t0 = None) by reflexivity. rewrite H4.
+    assert (H5 : list_eqb t0 [HASH; 58] = false) by reflexivity. rewrite H5.
+    assert (H6 : startswith [34] (t0 ++ ws ++ quoted c) = false) by reflexivity. rewrite H6.
+    assert (H7 : startswith k_msgstr_br (t0 ++ ws ++ quoted c) = true) by reflexivity. rewrite H7. reflexivity.
+Qed.
+
+Lemma lex_obs_mx osep i ws c : sep_str_ok osep -> i < 10 -> all_space ws -> ws <> [] ->
+  lex_line false ([35; 126] ++ osep ++ mx_cur i ws c) = LLine true false (AProc Ymx (mx_cur i ws c)).
+Proof.
+  intros Ho Hi Hws Hne. destruct (mx_line_facts i ws c Hi Hws Hne) as (Eb & Htr & Hst & Hw & Hcore).
+  rewrite Eb. rewrite (lex_obs_line osep _ Ho Htr Hst). unfold rest_tokens. rewrite Hw. cbn [fst snd].
+  rewrite Hcore. reflexivity.
+Qed.
+
+(* ---- #| msgid "..."  and  #| "..." *)
+Lemma lex_prev_line psep inner : sep_str_ok psep -> trimmed inner -> starts_nonspace inner ->
+  lex_line false ([35; 124] ++ psep ++ inner) =
+  LLine false true
+    (if startswith [34] (fst (word inner)) then AProc Ymc inner
+     else match lstrip (snd (word inner)) with
+          | [] => AFail DInvalidContinuation
+          | _ => match prev_keyword_sym (fst (word inner)) with
+                 | None => AFail (DUnknownKeyword (fst (word inner)))
+                 | Some y => AProc y (lstrip (drop (length (fst (word inner))) inner))
+                 end
+          end).
+Proof.
+  intros [Hne Hsp] Htr Hst.
+  destruct (hash_tok_nospace 124 ltac:(cbn; tauto)) as [Hns H35].
+  assert (Hinner : inner <> []) by (destruct inner; [contradiction|discriminate]).
+  assert (Hbody : trimmed ([35; 124] ++ psep ++ inner)).
+  { replace ([35; 124] ++ psep ++ inner) with (([35; 124] ++ psep) ++ inner) by now rewrite <- app_assoc.
+    destruct (trimmed_parts _ Htr Hinner) as [_ Hl]. apply trimmed_app_last; try assumption; discriminate. }
+  rewrite lex_line_body; [|exact Hbody|discriminate].
+  rewrite (split2_prefixed [35; 124] psep inner Hns ltac:(discriminate) Hsp Hne Hst).
+  unfold lex_tokens, rest_tokens. change (list_eqb [35; 124] [HASH; 126; 124]) with false.
+  change (list_eqb [35; 124] [HASH; 126]) with false. cbn [andb]. change (startswith [HASH] [35; 124]) with true.
+  f_equal. unfold lex_core. change (keyword_sym [35; 124]) with (@None sym).
+  change (list_eqb [35; 124] [HASH; 58]) with false.
+  change (startswith [34] ([35; 124] ++ psep ++ inner)) with false.
+  change (startswith k_msgstr_br ([35; 124] ++ psep ++ inner)) with false.
+  change (list_eqb [35; 124] [HASH; 44]) with false.
+  change (list_eqb [35; 124] [HASH] || startswith [HASH; HASH] [35; 124]) with false.
+  change (list_eqb [35; 124] [HASH; 46]) with false. change (list_eqb [35; 124] [HASH; 124]) with true. cbv iota.
+  assert (El : lstrip (drop 2 ([35; 124] ++ psep ++ inner)) = inner).
+  { cbn [app drop skipn]. rewrite lstrip_spaces by assumption. now apply lstrip_nonspace. }
+  rewrite El. destruct (lstrip (snd (word inner))); reflexivity.
+Qed.
+
+Definition prev_kw_of (y : sym) : option str :=
+  match y with Ypc => Some k_msgctxt | Ypm => Some k_msgid | Ypp => Some k_msgid_plural | _ => None end.
+
+Lemma lex_prev_kw y kw psep sep c : prev_kw_of y = Some kw -> sep_str_ok psep -> all_space sep -> sep <> [] ->
+  lex_line false ([35; 124] ++ psep ++ kw ++ sep ++ quoted c) = kw_tok false true y c.
+Proof.
+  intros Hk Hp Hs Hne.
+  assert (Hk' : exists y', kw_of y' = Some kw /\ prev_keyword_sym kw = Some y /\ startswith [34] kw = false).
+  { destruct y; cbn in Hk; inversion Hk; subst; [exists Yct|exists Ymi|exists Ymp]; repeat split; reflexivity. }
+  destruct Hk' as (y' & Hk' & Hpk & H34).
+  destruct (kw_line_facts y' kw sep c Hk' Hs Hne) as (Htr & Hst & Hw & Hl).
+  rewrite (lex_prev_line psep _ Hp Htr Hst). rewrite Hw. cbn [fst snd]. rewrite H34, Hl, Hpk.
+  assert (Ed : lstrip (drop (length kw) (kw ++ sep ++ quoted c)) = quoted c).
+  { unfold drop. rewrite skipn_app, skipn_all, Nat.sub_diag. cbn [skipn app]. exact Hl. }
+  rewrite Ed. reflexivity.
+Qed.
+
+Lemma lex_prev_cont psep c : sep_str_ok psep -> lex_line false ([35; 124] ++ psep ++ quoted c) = cont_tok false true c.
+Proof.
+  intros Hp. destruct (quoted_trimmed c) as (Htr & _ & Hst & _).
+  rewrite (lex_prev_line psep _ Hp Htr Hst). destruct (word_quoted_head c) as [w Hw]. rewrite Hw. reflexivity.
+Qed.
+
+(* ================================================================ assembly: every line of the rendered file *)
+(* a '#' is followed by one of the characters after which Codecs.open leaves a comment line alone *)
+Definition typical_shape (b : str) : Prop :=
+  b = [35] \/ hd 0 b <> 35 \/ exists c r, b = 35 :: c :: r /\ In c [32; 46; 58; 44; 124; 126].
+
+Definition lexes (body : str) (t : lexed) : Prop :=
+  typical_shape body /\ trimmed body /\ body <> [] /\
+  forall first lead trail, all_space lead -> all_space trail -> lex_line first (lead ++ body ++ trail) = t.
+
+Lemma lexes_intro body t : typical_shape body -> trimmed body -> body <> [] -> hd 0 body <> bom -> lex_line false body = t -> lexes body t.
+Proof. intros Hs Ht Hne Hb Hl. split; [exact Hs|]. split; [exact Ht|]. split; [exact Hne|].
+  intros first lead trail H1 H2. rewrite lex_padded by assumption. exact Hl. Qed.
+
+Ltac solve_shape := first [ left; reflexivity | right; left; discriminate
+                          | right; right; eexists _, _; split; [reflexivity | cbn [In]; tauto] ].
+
+Lemma trimmed_prefix pre inner : pre <> [] -> ~ is_space (hd 0 pre) -> trimmed inner -> inner <> [] -> trimmed (pre ++ inner).
+Proof. intros Hp Hh Ht Hne. destruct (trimmed_parts _ Ht Hne) as [_ Hl]. now apply trimmed_app_last. Qed.
+
+Lemma Forall2_flat_map {A B C} (R : B -> C -> Prop) (f : A -> list B) (g : A -> list C) l :
+  (forall x, In x l -> Forall2 R (f x) (g x)) -> Forall2 R (flat_map f l) (flat_map g l).
+Proof. induction l as [|x l IH]; intros H; [constructor|]. cbn [flat_map]. apply Forall2_app; [apply H; now left|].
+  apply IH. intros y Hy. apply H. now right. Qed.
+
+Lemma Forall2_map2 {A B C} (R : B -> C -> Prop) (f : A -> B) (g : A -> C) l :
+  (forall x, In x l -> R (f x) (g x)) -> Forall2 R (map f l) (map g l).
+Proof. induction l as [|x l IH]; intros H; [constructor|]. cbn [map]. constructor; [apply H; now left|].
+  apply IH. intros y Hy. apply H. now right. Qed.
+
+Lemma last_app_ne' {A} (l1 l2 : list A) d : l2 <> [] -> last (l1 ++ l2) d = last l2 d.
+Proof. intros H. induction l1 as [|a l1 IH]; [reflexivity|]. cbn [app].
+  rewrite <- IH. destruct (l1 ++ l2) eqn:E; [destruct l1, l2; cbn in E; congruence|]. reflexivity. Qed.
+
+Lemma no_space_last w : no_space w -> w <> [] -> ~ is_space (last w 0).
+Proof. intros Hns Hne. destruct (@exists_last _ w Hne) as (l' & z & ->). rewrite last_last.
+  apply Forall_app in Hns. destruct Hns as [_ Hz]. now inversion Hz. Qed.
+
+Lemma refs_text_facts : forall refs b, refs <> [] -> refs_ok b refs ->
+  refs_text refs <> [] /\ ~ is_space (last (refs_text refs) 0).
+Proof.
+  induction refs as [|[ws r] refs IH]; intros b Hne Hok; [congruence|].
+  cbn [refs_ok] in Hok. destruct Hok as (_ & _ & _ & Hr & Hrest). destruct (ref_text_no_space r Hr) as [Hns Hrne].
+  unfold refs_text. cbn [flat_map fst snd]. fold (refs_text refs). split.
+  - intros E. apply app_eq_nil in E. destruct E as [E _]. apply app_eq_nil in E. destruct E as [_ E]. contradiction.
+  - destruct refs as [|x refs'].
+    + cbn [refs_text flat_map]. rewrite app_nil_r. rewrite last_app_ne' by assumption. now apply no_space_last.
+    + destruct (IH false ltac:(discriminate) Hrest) as [H1 H2]. rewrite last_app_ne' by assumption. exact H2.
+Qed.
+
+Lemma flags_body_ne : forall items x, In x items -> snd (fst x) <> [] -> flags_body items <> [].
+Proof.
+  induction items as [|y items IH]; intros x Hin Hx; [destruct Hin|].
+  destruct items as [|z items'].
+  - destruct Hin as [->|[]]. rewrite flags_body_one. unfold fitem_text. intros E.
+    apply app_eq_nil in E. destruct E as [_ E]. apply app_eq_nil in E. destruct E as [E _]. contradiction.
+  - rewrite flags_body_cons. intros E. apply app_eq_nil in E. destruct E as [_ E]. discriminate E.
+Qed.
+
+Section Assembly.
+Variable dec : decoder.
+Variable sp : seps.
+Hypothesis Hsp : seps_ok sp.
+
+Let Hkw : sep_str_ok (sp_kw sp) := proj1 Hsp.
+Let Hobs : sep_str_ok (sp_obs sp) := proj1 (proj2 Hsp).
+Let Hprev : sep_str_ok (sp_prev sp) := proj1 (proj2 (proj2 Hsp)).
+Let Hmx : sep_str_ok (sp_mx sp) := proj2 (proj2 (proj2 Hsp)).
+
+Definition obs_pre (obs : bool) : str := if obs then [35; 126] ++ sp_obs sp else [].
+
+Lemma bom_facts : 35 <> bom /\ 34 <> bom /\ 109 <> bom.
+Proof. unfold bom. repeat split; discriminate. Qed.
+
+Lemma quoted_ne c : quoted c <> [].
+Proof. discriminate. Qed.
+
+(* a message string: keyword line and continuation lines, plain or with the #~ prefix *)
+Lemma lexes_cont obs c : chunk_ok dec c -> lexes (obs_pre obs ++ quoted_text c) (cont_tok obs false c).
+Proof.
+  intros Hc. destruct (quoted_trimmed c) as (Htr & Hne & _ & Hb). destruct obs; cbn [obs_pre app].
+  - apply lexes_intro; [solve_shape| | discriminate | apply bom_facts |].
+    + change (35 :: 126 :: sp_obs sp ++ quoted_text c) with ([35; 126] ++ sp_obs sp ++ quoted c).
+      rewrite app_assoc. apply trimmed_prefix; [discriminate|apply not_space_chars|exact Htr|exact Hne].
+    + apply (lex_obs_cont dec (sp_obs sp) c Hobs Hc).
+  - apply lexes_intro; [solve_shape|exact Htr|exact Hne|exact Hb|]. apply (lex_cont dec c Hc).
+Qed.
+
+Lemma lexes_kw obs y kw c : kw_of y = Some kw -> chunk_ok dec c ->
+  lexes (obs_pre obs ++ kw ++ sp_kw sp ++ quoted_text c) (kw_tok obs false y c).
+Proof.
+  intros Hk Hc. destruct Hkw as [Hne Hs]. destruct (kw_line_facts y kw (sp_kw sp) c Hk Hs Hne) as (Htr & Hst & _).
+  destruct (kw_facts y kw Hk) as (_ & Hkne & _ & _ & Hb).
+  assert (Hine : kw ++ sp_kw sp ++ quoted c <> []) by (destruct kw; [congruence|discriminate]).
+  destruct obs; cbn [obs_pre app].
+  - apply lexes_intro; [solve_shape| | discriminate | apply bom_facts |].
+    + change (35 :: 126 :: sp_obs sp ++ kw ++ sp_kw sp ++ quoted_text c) with ([35; 126] ++ sp_obs sp ++ kw ++ sp_kw sp ++ quoted c).
+      rewrite app_assoc. apply trimmed_prefix; [discriminate|apply not_space_chars|exact Htr|exact Hine].
+    + apply (lex_obs_kw dec y kw (sp_obs sp) (sp_kw sp) c Hk Hobs Hs Hne Hc).
+  - apply lexes_intro; [right; left; destruct y; cbn in Hk; inversion Hk; discriminate|exact Htr|exact Hine| |apply (lex_kw dec y kw (sp_kw sp) c Hk Hs Hne Hc)].
+    destruct kw; [congruence|exact Hb].
+Qed.
+
+Lemma lexes_sstring obs y kw s : kw_of y = Some kw -> sstring_ok dec s ->
+  Forall2 lexes (string_bodies sp (obs_pre obs) kw s) (toks_sstring obs false y s).
+Proof.
+  intros Hk [Hne Hok]. destruct s as [|c r]; [congruence|]. inversion Hok as [|? ? Hc Hr]; subst.
+  cbn [string_bodies toks_sstring]. constructor; [now apply lexes_kw|].
+  apply Forall2_map2. intros c' Hin. rewrite Forall_forall in Hr. apply lexes_cont. now apply Hr.
+Qed.
+
+Lemma lexes_mx obs i c : i < 10 -> chunk_ok dec c ->
+  lexes (obs_pre obs ++ w_msgstr ++ [91] ++ index_text i ++ [93] ++ sp_mx sp ++ quoted_text c)
+        (LLine obs false (AProc Ymx (mx_cur i (sp_mx sp) c))).
+Proof.
+  intros Hi Hc. destruct Hmx as [Hne Hs]. destruct (mx_line_facts i (sp_mx sp) c Hi Hs Hne) as (Eb & Htr & Hst & _).
+  assert (Ebody : w_msgstr ++ [91] ++ index_text i ++ [93] ++ sp_mx sp ++ quoted_text c = mx_cur i (sp_mx sp) c).
+  { unfold mx_cur, k_msgstr_br. rewrite <- !app_assoc. reflexivity. }
+  rewrite Ebody. destruct obs; cbn [obs_pre app].
+  - apply lexes_intro; [solve_shape| | discriminate | apply bom_facts |].
+    + change (35 :: 126 :: sp_obs sp ++ mx_cur i (sp_mx sp) c) with ([35; 126] ++ sp_obs sp ++ mx_cur i (sp_mx sp) c).
+      rewrite app_assoc. apply trimmed_prefix; [discriminate|apply not_space_chars| |]; rewrite Eb; [exact Htr|discriminate].
+    + apply (lex_obs_mx (sp_obs sp) i (sp_mx sp) c Hobs Hi Hs Hne).
+  - apply lexes_intro; [right; left; rewrite Eb; discriminate|rewrite Eb; exact Htr|rewrite Eb; discriminate|rewrite Eb; apply bom_facts|].
+    apply (lex_mx dec i (sp_mx sp) c Hi Hs Hne Hc).
+Qed.
+
+Lemma lexes_plurals obs : forall l i, Forall (sstring_ok dec) l -> N.of_nat (length l) + i <= 10 ->
+  Forall2 lexes (plurals_bodies sp (obs_pre obs) i l) (toks_plurals obs (sp_mx sp) i l).
+Proof.
+  induction l as [|s l IH]; intros i Hok Hlen; [constructor|]. inversion Hok as [|? ? [Hne Hs] Hl]; subst.
+  cbn [plurals_bodies toks_plurals length] in *. apply Forall2_app; [|apply IH; [assumption|lia]].
+  destruct s as [|c r]; [congruence|]. inversion Hs as [|? ? Hc Hr]; subst. cbn [plural_bodies toks_mx].
+  constructor; [apply lexes_mx; [lia|assumption]|].
+  apply Forall2_map2. intros c' Hin. rewrite Forall_forall in Hr. apply lexes_cont. now apply Hr.
+Qed.
+
+(* comment lines *)
+Definition toks_cline_x (obs : bool) (cl : cline) : list lexed :=
+  match cl with
+  | CPrev k s => if obs then map (fun _ => LPrevObsolete) s else toks_cline cl
+  | _ => toks_cline cl
+  end.
+
+Lemma lexes_tc t : trimmed t -> lexes (35 :: match t with [] => [] | _ => 32 :: t end) (LLine false true (AProc Ytc (tc_cur t))).
+Proof.
+  intros Ht. change (35 :: match t with [] => [] | _ => 32 :: t end) with (tc_cur t).
+  apply lexes_intro; [unfold tc_cur; destruct t; solve_shape| | discriminate | apply bom_facts | apply (lex_cline_simple (CTrans t) (or_intror I) Ht)].
+  unfold tc_cur. destruct t as [|c t']; [split; apply not_space_chars|].
+  change (35 :: 32 :: c :: t') with ([35; 32] ++ (c :: t')). apply trimmed_prefix; [discriminate|apply not_space_chars|exact Ht|discriminate].
+Qed.
+
+Lemma lexes_hash t0 y sep s : In (t0, y) [([35; 46], Ygc); ([35; 58], Yoc); ([35; 44], Yfl)] ->
+  is_space sep -> s <> [] -> ~ is_space (last s 0) -> lexes (t0 ++ sep :: s) (LLine false true (AProc y (t0 ++ sep :: s))).
+Proof.
+  intros Hin Hsep Hne Hl.
+  assert (E : exists a, t0 ++ sep :: s = a ++ s /\ a <> [] /\ hd 0 a = 35).
+  { cbn [In] in Hin. destruct Hin as [Hin|[Hin|[Hin|[]]]]; inversion Hin; subst;
+      [exists [35; 46; sep]|exists [35; 58; sep]|exists [35; 44; sep]]; repeat split; discriminate. }
+  destruct E as (a & Ea & Ha & Hh).
+  assert (Htr : trimmed (t0 ++ sep :: s)) by (rewrite Ea; apply trimmed_app_last; try assumption; rewrite Hh; apply not_space_chars).
+  apply lexes_intro; [cbn [In] in Hin; destruct Hin as [Hin|[Hin|[Hin|[]]]]; inversion Hin; subst; solve_shape|exact Htr| | |].
+  - rewrite Ea. destruct a; [congruence|discriminate].
+  - rewrite Ea. destruct a; [congruence|]. cbn [hd app] in *. rewrite Hh. apply bom_facts.
+  - apply lex_hash_line; [cbn [In] in *; tauto|exact Hsep|exact Htr].
+Qed.
+
+Lemma lexes_obsolete_prev_any x : x <> [] -> ~ is_space (last x 0) ->
+  lexes ([35; 126; 124] ++ sp_prev sp ++ x) LPrevObsolete.
+Proof.
+  intros Hx Hl. destruct Hprev as [Hne Hs].
+  assert (Htr : trimmed ([35; 126; 124] ++ sp_prev sp ++ x)).
+  { rewrite app_assoc. apply trimmed_app_last; [discriminate|apply not_space_chars|exact Hx|exact Hl]. }
+  apply lexes_intro; [solve_shape|exact Htr|discriminate|apply bom_facts|].
+  apply lex_prev_obsolete; [now apply all_space_ends|exact Htr].
+Qed.
+
+Lemma last_quoted_tail a c : last (a ++ quoted_text c) 0 = 34.
+Proof. unfold quoted_text. replace (a ++ 34 :: chunk_text c ++ [34]) with ((a ++ 34 :: chunk_text c) ++ [34]) by (rewrite <- !app_assoc; reflexivity).
+  apply last_last. Qed.
+
+Lemma lexes_cline obs cl : cline_ok dec cl -> Forall2 lexes (cline_bodies sp obs cl) (toks_cline_x obs cl).
+Proof.
+  intros Hok. destruct cl as [t | sep t | sep refs | sep items | k s]; cbn [cline_bodies toks_cline_x toks_cline].
+  - destruct Hok as [Ht _]. constructor; [now apply lexes_tc|constructor].
+  - destruct Hok as ([Hsep _] & Hne & Ht & _). destruct (trimmed_parts _ Ht Hne) as [_ Hl].
+    constructor; [|constructor]. apply (lexes_hash [35; 46] Ygc sep t); [cbn; tauto|assumption..].
+  - destruct Hok as ([Hsep _] & Hne & Hr). constructor; [|constructor].
+    rewrite refs_body_text. destruct (refs_text_facts refs true Hne Hr) as [H1 H2].
+    apply (lexes_hash [35; 58] Yoc sep (refs_text refs)); [cbn; tauto|assumption..].
+  - destruct Hok as ([Hsep _] & Hi & [x [Hx Hxne]] & Hl). constructor; [|constructor].
+    apply (lexes_hash [35; 44] Yfl sep (flags_body items)); [cbn; tauto|assumption| |exact Hl].
+    exact (flags_body_ne items x Hx Hxne).
+  - destruct obs.
+    + (* #~| lines: dropped *)
+      destruct Hok as [Hne Hcs]. destruct s as [|c r]; [congruence|]. cbn [string_bodies map].
+      constructor.
+      * rewrite <- app_assoc. apply lexes_obsolete_prev_any; [destruct k; discriminate|]. rewrite app_assoc. rewrite last_quoted_tail.
+        apply not_space_chars.
+      * apply Forall2_map2. intros c' _. rewrite <- app_assoc. apply lexes_obsolete_prev_any; [discriminate|].
+        rewrite <- (app_nil_l (quoted_text c')). rewrite last_quoted_tail. apply not_space_chars.
+    + destruct Hok as [Hne Hcs]. destruct s as [|c r]; [congruence|]. inversion Hcs as [|? ? Hc Hr]; subst.
+      cbn [string_bodies toks_sstring]. destruct Hprev as [Hpne Hps]. destruct Hkw as [Hkne Hks].
+      assert (Hk : exists y' kw, kw_of y' = Some kw /\ prev_kw_of (prev_sym k) = Some kw /\ pkind_word k = kw).
+      { destruct k; [exists Yct, k_msgctxt|exists Ymi, k_msgid|exists Ymp, k_msgid_plural]; repeat split; reflexivity. }
+      destruct Hk as (y' & kw & Hk1 & Hk2 & Hk3). rewrite Hk3.
+      destruct (kw_line_facts y' kw (sp_kw sp) c Hk1 Hks Hkne) as (Htr & _).
+      constructor.
+      * rewrite <- app_assoc. apply lexes_intro; [solve_shape| | discriminate | apply bom_facts |].
+        -- rewrite app_assoc. apply trimmed_prefix; [discriminate|apply not_space_chars|exact Htr|]. destruct kw; [discriminate Hk1 || (destruct y'; discriminate)|discriminate].
+        -- apply (lex_prev_kw (prev_sym k) kw (sp_prev sp) (sp_kw sp) c Hk2 (conj Hpne Hps) Hks Hkne).
+      * apply Forall2_map2. intros c' _. rewrite <- app_assoc. apply lexes_intro; [solve_shape| | discriminate | apply bom_facts |].
+        -- rewrite app_assoc. apply trimmed_prefix; [discriminate|apply not_space_chars|apply quoted_trimmed|discriminate].
+        -- apply (lex_prev_cont (sp_prev sp) c' (conj Hpne Hps)).
+Qed.
+
+End Assembly.
+
+(* ================================================================ entries, catalog, file *)
+Section Assembly2.
+Variable dec : decoder.
+Variable sp : seps.
+Hypothesis Hsp : seps_ok sp.
+
+Definition toks_entry_x (e : sentry) : list lexed :=
+  let obs := s_obsolete e in
+  flat_map (toks_cline_x obs) (s_pre e) ++
+  match s_ctxt e with Some s => toks_sstring obs false Yct s | None => [] end ++
+  toks_sstring obs false Ymi (s_id e) ++ toks_strs obs (sp_mx sp) e.
+
+Definition toks_catalog_x (c : scatalog) : list lexed :=
+  toks_header (sc_header c) ++ flat_map toks_entry_x (sc_entries c).
+
+Lemma lexes_entry e : sentry_ok dec e -> (length (s_strs e) <= 10)%nat ->
+  Forall2 lexes (entry_bodies sp e) (toks_entry_x e).
+Proof.
+  intros (Hpre & Hctx & Hid & Hstrs) Hlen. unfold entry_bodies, toks_entry_x.
+  change (if s_obsolete e then [35; 126] ++ sp_obs sp else []) with (obs_pre sp (s_obsolete e)).
+  apply Forall2_app; [|apply Forall2_app; [|apply Forall2_app]].
+  - apply Forall2_flat_map. intros cl Hin. rewrite Forall_forall in Hpre. apply (lexes_cline dec sp Hsp). now apply Hpre.
+  - destruct (s_ctxt e) as [s|]; [|constructor]. now apply (lexes_sstring dec sp Hsp _ Yct k_msgctxt s eq_refl).
+  - now apply (lexes_sstring dec sp Hsp _ Ymi k_msgid (s_id e) eq_refl).
+  - unfold toks_strs. destruct (s_plural e) as [pl|].
+    + destruct Hstrs as (Hpl & Hne & Hall). apply Forall2_app.
+      * now apply (lexes_sstring dec sp Hsp _ Ymp k_msgid_plural pl eq_refl).
+      * apply (lexes_plurals dec sp Hsp); [assumption|lia].
+    + destruct Hstrs as (s & Hs & Hsok). rewrite Hs. cbn [flat_map]. rewrite !app_nil_r.
+      now apply (lexes_sstring dec sp Hsp _ Yms k_msgstr s eq_refl).
+Qed.
+
+Lemma lexes_catalog c : scatalog_ok dec c -> nplurals_le_10 c ->
+  Forall2 lexes (render_bodies sp c) (toks_catalog_x c).
+Proof.
+  intros (Hh & Hes & _) Hn. unfold render_bodies, toks_catalog_x, toks_header. apply Forall2_app.
+  - apply Forall2_map2. intros t Hin. rewrite Forall_forall in Hh. destruct (Hh t Hin) as [Ht _]. now apply (lexes_tc).
+  - apply Forall2_flat_map. intros e Hin. unfold nplurals_le_10 in Hn. rewrite Forall_forall in Hes, Hn. apply lexes_entry; auto.
+Qed.
+
+(* ---- the dropped #~| lines and the blank lines are insertions in the sense of [ext] *)
+Lemma ext_refl' l : ext l l.
+Proof. induction l; constructor; assumption. Qed.
+
+Lemma ext_app a a' b b' : ext a a' -> ext b b' -> ext (a ++ b) (a' ++ b').
+Proof.
+  induction 1 as [| l l' H IH | l l' H IH Hne | x l l' H IH]; intros Hb; cbn [app].
+  - exact Hb.
+  - constructor. now apply IH.
+  - constructor; [now apply IH|]. intros E. apply app_eq_nil in E. destruct E. contradiction.
+  - constructor. now apply IH.
+Qed.
+
+Lemma ext_insert_prev {A} (s : list A) l : l <> [] -> ext l (map (fun _ => LPrevObsolete) s ++ l).
+Proof. intros Hne. induction s as [|x s IH]; cbn [map app]; [apply ext_refl'|]. constructor; assumption. Qed.
+
+Lemma ext_trans_prev {A} (s : list A) a b : ext a b -> a <> [] -> ext a (map (fun _ => LPrevObsolete) s ++ b).
+Proof. intros H Hne. induction s as [|x s IH]; cbn [map app]; [exact H|]. constructor; assumption. Qed.
+
+Lemma ext_pre (obs : bool) : forall (pre : list cline) (T : list lexed), T <> [] ->
+  ext (flat_map toks_cline (if obs then filter (fun cl => negb (is_prev cl)) pre else pre) ++ T)
+      (flat_map (toks_cline_x obs) pre ++ T).
+Proof.
+  destruct obs.
+  - induction pre as [|cl pre IH]; intros T HT; [apply ext_refl'|]. cbn [filter flat_map].
+    destruct cl as [t | sep t | sep refs | sep items | k s]; cbn [is_prev negb flat_map toks_cline_x];
+      try (rewrite <- !app_assoc; apply ext_app; [apply ext_refl'|now apply IH]).
+    rewrite <- app_assoc. eapply (ext_trans_prev s).
+    + now apply IH.
+    + intros E. apply app_eq_nil in E. destruct E. contradiction.
+  - intros pre T _. assert (E : flat_map (toks_cline_x false) pre = flat_map toks_cline pre).
+    { apply flat_map_ext. intros []; reflexivity. }
+    rewrite E. apply ext_refl'.
+Qed.
+End Assembly2.
+
+(* ================================================================ the theorem *)
+Inductive bext : list lexed -> list lexed -> Prop :=
+| bext_nil : bext [] []
+| bext_blank l l' : bext l l' -> bext l (LBlank :: l')
+| bext_keep x l l' : bext l l' -> bext (x :: l) (x :: l').
+
+Lemma ext_bext : forall b c, bext b c -> forall a, ext a b -> ext a c.
+Proof.
+  induction 1 as [| b c Hb IH | x b c Hb IH]; intros a Ha.
+  - exact Ha.
+  - constructor. now apply IH.
+  - inversion Ha; subst.
+    + constructor. now apply IH.
+    + constructor; [now apply IH|assumption].
+    + constructor. now apply IH.
+Qed.
+
+Lemma lex_file : forall bodies raws, file_of bodies raws -> forall toks, Forall2 lexes bodies toks ->
+  forall first, bext toks (lex_lines first raws).
+Proof.
+  induction 1 as [| bodies ws raws Hws Hf IH | body lead trail bodies raws Hl Ht Hf IH]; intros toks H2 first.
+  - inversion H2; subst. constructor.
+  - cbn [lex_lines]. rewrite (lex_blank first ws Hws (or_intror I)). constructor. now apply IH.
+  - inversion H2 as [|? t ? toks' Hlex H2']; subst. cbn [lex_lines]. destruct Hlex as (_ & _ & _ & Hlex). rewrite (Hlex first lead trail Hl Ht).
+    constructor. now apply IH.
+Qed.
+
+Lemma ext_catalog dec sp c : Forall (sentry_ok dec) (sc_entries c) ->
+  ext (toks_catalog (sp_mx sp) c) (toks_catalog_x sp c).
+Proof.
+  intros Hok. unfold toks_catalog, toks_catalog_x. apply ext_app; [apply ext_refl'|].
+  induction (sc_entries c) as [|e es IH]; [constructor|]. inversion Hok as [|? ? He Hes]; subst.
+  cbn [flat_map]. apply ext_app; [|now apply IH].
+  unfold toks_entry, toks_entry_x, eff_pre. apply ext_pre.
+  destruct He as (_ & _ & [Hne _] & _). destruct (s_id e) as [|c0 r]; [congruence|].
+  intros E. apply app_eq_nil in E. destruct E as [_ E]. discriminate E.
+Qed.
+
+Lemma space_not_quote s : all_space s -> ~ In 34 s.
+Proof. intros H Hin. unfold all_space in H. rewrite Forall_forall in H. specialize (H _ Hin). unfold is_space in H. cbn [In] in H.
+  repeat (destruct H as [H|H]; [discriminate H|]). destruct H. Qed.
+
+(* every file of the printer family loads back to its catalog *)
+Theorem load_render O sp c raws :
+  ascii_compatible (o_dec O) -> seps_ok sp -> scatalog_ok (o_dec O) c -> nplurals_le_10 c ->
+  file_of (render_bodies sp c) raws ->
+  parse_lines O raws = Ok (mkPo (fst (catalog_value c)) (map (fun e => to_entry (tool_view e)) (snd (catalog_value c))) false).
+Proof.
+  intros Hdec Hsp Hok Hn Hfile. unfold parse_lines.
+  apply (machine_roundtrip O (sp_mx sp) c _ Hdec); try assumption.
+  - apply space_not_quote. apply Hsp.
+  - eapply ext_bext; [|apply (ext_catalog (o_dec O) sp c); apply Hok].
+    apply (lex_file _ _ Hfile). now apply (lexes_catalog (o_dec O) sp Hsp).
+Qed.
+
+Theorem load_render_exact O sp c raws :
+  ascii_compatible (o_dec O) -> seps_ok sp -> scatalog_ok (o_dec O) c -> nplurals_le_10 c -> no_obsolete_prev c ->
+  file_of (render_bodies sp c) raws ->
+  parse_lines O raws = Ok (mkPo (fst (catalog_value c)) (map to_entry (snd (catalog_value c))) false).
+Proof.
+  intros Hdec Hsp Hok Hn Hno Hfile. rewrite (load_render O sp c raws Hdec Hsp Hok Hn Hfile). f_equal. f_equal.
+  unfold catalog_value. cbn [snd]. rewrite !map_map. apply map_ext_in. intros e He. now rewrite (tool_view_id c Hno e He).
+Qed.
